@@ -197,6 +197,53 @@ fn fmt_hist<O: Debug>(h: &[O]) -> Vec<String> {
     h.iter().map(|o| format!("{o:?}")).collect()
 }
 
+/// As `expand`, but every operation of the node runs on its own rebuilt instance in parallel
+/// (used while the frontier is too small to keep all cores busy).
+fn expand_wide<W: World + ?Sized>(w: &W, node: &Node<W>, depth: usize) -> NodeOut<W> {
+    let inst = rebuild(w, node.seed, &node.hist);
+    let pre_key = w.key(&inst);
+    let ops = w.ops(&inst, &node.model, depth);
+    drop(inst);
+    let parts: Vec<NodeOut<W>> = ops
+        .par_iter()
+        .map(|op| {
+            let mut out = NodeOut::<W> { succs: vec![], violations: vec![], stats: Stats::default(), transitions: 1 };
+            let mut inst = rebuild(w, node.seed, &node.hist);
+            let mut m = node.model.clone();
+            let kind = w.kind(op);
+            let res = {
+                let mut cx = StepCtx { world: w, seed: node.seed, hist: &node.hist, stats: &mut out.stats };
+                w.step(&mut inst, &mut m, op, &mut cx)
+            };
+            match res {
+                Err(v) => out.violations.push((op.clone(), v)),
+                Ok(ok) => {
+                    out.stats.op(&kind, ok);
+                    let key = w.key(&inst);
+                    if !ok && w.atomic_on_refusal(op) {
+                        if key != pre_key {
+                            out.violations.push((op.clone(), Violation::new("failure-atomicity", "a refused call changed contract storage".into())));
+                        }
+                    } else if !w.leaf_only(op) {
+                        let mdig = w.model_digest(&m);
+                        let key = mix(key, w.model_key(&m));
+                        out.succs.push(Succ { op: op.clone(), ok, key, model: m, mdig });
+                    }
+                }
+            }
+            out
+        })
+        .collect();
+    let mut out = NodeOut::<W> { succs: vec![], violations: vec![], stats: Stats::default(), transitions: 0 };
+    for p in parts {
+        out.succs.extend(p.succs);
+        out.violations.extend(p.violations);
+        out.stats.merge(&p.stats);
+        out.transitions += p.transitions;
+    }
+    out
+}
+
 fn expand<W: World + ?Sized>(w: &W, node: &Node<W>, depth: usize) -> NodeOut<W> {
     let mut out = NodeOut::<W> { succs: vec![], violations: vec![], stats: Stats::default(), transitions: 0 };
     let mut inst = rebuild(w, node.seed, &node.hist);
@@ -346,7 +393,11 @@ pub fn explore<W: World + ?Sized>(w: &W, b: &Bounds, rep: &mut Report) {
                 break;
             }
             let end = (idx + chunk).min(frontier.len());
-            let outs: Vec<NodeOut<W>> = frontier[idx..end].par_iter().map(|n| expand(w, n, depth)).collect();
+            let outs: Vec<NodeOut<W>> = if frontier.len() <= 32 {
+                frontier[idx..end].iter().map(|n| expand_wide(w, n, depth)).collect()
+            } else {
+                frontier[idx..end].par_iter().map(|n| expand(w, n, depth)).collect()
+            };
             for (off, out) in outs.into_iter().enumerate() {
                 let node = &frontier[idx + off];
                 transitions += out.transitions;
